@@ -14,7 +14,14 @@ env = dict(os.environ, CARGO_TARGET_DIR=f"/verif/build/seedtest")
 def sh(cmd, cwd=None, timeout=3000):
     p = subprocess.run(cmd, shell=True, cwd=cwd, env=env, capture_output=True, text=True, timeout=timeout)
     return p.returncode, p.stdout + p.stderr
-meta = dict(seed=os.path.basename(seed), property=prop, base_commit=subprocess.run("git -C /repo rev-parse --short HEAD", shell=True, capture_output=True, text=True).stdout.strip())
+_old = {}
+if skip and os.path.exists(os.path.join(seed, "meta.json")):
+    try:
+        _old = json.load(open(os.path.join(seed, "meta.json")))   # --skip-confirm keeps the recorded confirmation
+    except Exception:
+        _old = {}
+meta = dict({k: v for k, v in _old.items() if k in ("demo_on_unchanged_tree", "baseline_tests_passing_with_patch", "baseline_missing", "demo_with_patch", "demo_output_tail")},
+            seed=os.path.basename(seed), property=prop, base_commit=subprocess.run("git -C /repo rev-parse --short HEAD", shell=True, capture_output=True, text=True).stdout.strip())
 notes = os.path.join(seed, "notes.txt")
 if os.path.exists(notes):
     meta["needs_to_manifest"] = open(notes).read().strip()[:1500]
